@@ -392,6 +392,42 @@ func (e *Engine) timeParse(st *State, layout string, s StrV, loc int, pos token.
 	return out
 }
 
+// normaliseCivil: time.Date's normalisation of out-of-range fields, for single overflows: seconds and
+// minutes 0..119, hours 0..47, day 1..32 (+1 carried), month 1..24, nanoseconds in range.  Anything further
+// out is UNSUPPORTED.
+func (e *Engine) normaliseCivil(st *State, t TimeV) TimeV {
+	c := e.tc
+	ext := c.And(e.inRange(t.Y, 0, 9999), e.inRange(t.M, 1, 24), e.inRange(t.D, 1, 32), e.inRange(t.H, 0, 47), e.inRange(t.Mi, 0, 119),
+		e.inRange(t.S, 0, 119), e.inRange(t.Ns, 0, 999999999))
+	if e.feasible(st, c.Not(ext), "time.Date normalisation range") {
+		panic(unsupported("time.Date with fields further out of range than a single overflow (normalisation model); constrain the harness inputs"))
+	}
+	st.assume(ext)
+	one := e.bv64(1)
+	carry := func(x *Term, lim int64) (*Term, *Term) {
+		ov := c.BVSle(e.bv64(lim), x)
+		return c.Ite(ov, c.BVSub(x, e.bv64(lim)), x), c.Ite(ov, one, e.bv64(0))
+	}
+	s, cs := carry(t.S, 60)
+	mi, cm := carry(c.BVAdd(t.Mi, cs), 60)
+	h, ch := carry(c.BVAdd(t.H, cm), 24)
+	mo, cy := carry(c.BVSub(t.M, one), 12) // zero-based month
+	mo = c.BVAdd(mo, one)
+	y := c.BVAdd(t.Y, cy)
+	d := c.BVAdd(t.D, ch)
+	dim := e.daysIn(st, mo, y)
+	ovd := c.BVSlt(dim, d)
+	d2 := c.Ite(ovd, c.BVSub(d, dim), d)
+	dec := c.Eq(mo, e.bv64(12))
+	mo2 := c.Ite(ovd, c.Ite(dec, one, c.BVAdd(mo, one)), mo)
+	y2 := c.Ite(c.And(ovd, dec), c.BVAdd(y, one), y)
+	// a result in year 10000 is outside the time model: that corner is assumed away (stated)
+	e.stubsUsed["time.Date normalisation model (single overflow per field; results beyond year 9999 assumed away)"] = true
+	st.assume(c.BVSle(y2, e.bv64(9999)))
+	t.Y, t.M, t.D, t.H, t.Mi, t.S = y2, mo2, d2, h, mi, s
+	return t
+}
+
 type civilAlt struct {
 	st *State
 	t  TimeV
@@ -459,10 +495,21 @@ func init() {
 		}
 		// zero values of the local flavour so that both sides merge
 		zl := zero
-		zl.Off, zl.Bef = e.bv64(0), e.tc.True
+		zl.Off, zl.Bef, zl.Rel = e.bv64(0), e.tc.True, e.z24(0)
 		tt := e.transitionTime(st)
 		zl.UTC = e.tc.True
 		return TupleV{e.iteTime(t.Bef, zl, tt), e.iteTime(t.Bef, tt, zl)}
+	})
+	stubs["(time.Time).YearDay"] = stubTimeMethod(func(e *Engine, st *State, t TimeV, args []Value, pos token.Pos) Value {
+		e.needCivil(t, "YearDay")
+		c := e.tc
+		cum := []int64{0, 31, 59, 90, 120, 151, 181, 212, 243, 273, 304, 334}
+		before := e.bv64(334)
+		for m := 11; m >= 1; m-- {
+			before = c.Ite(c.Eq(t.M, e.bv64(int64(m))), e.bv64(cum[m-1]), before)
+		}
+		leapAdj := c.Ite(c.And(e.isLeap(st, t.Y), c.BVSlt(e.bv64(2), t.M)), e.bv64(1), e.bv64(0))
+		return c.BVAdd(c.BVAdd(before, t.D), leapAdj)
 	})
 	stubs["(time.Time).IsZero"] = stubTimeMethod(func(e *Engine, st *State, t TimeV, args []Value, pos token.Pos) Value {
 		return e.timeIsZero(st, t)
@@ -535,9 +582,10 @@ func init() {
 		t := TimeV{Y: args[0].(*Term), M: args[1].(*Term), D: args[2].(*Term), H: args[3].(*Term), Mi: args[4].(*Term), S: args[5].(*Term), Ns: args[6].(*Term), UTC: e.tc.Bool(loc.Kind == 1)}
 		valid := e.validCivil(st, t)
 		if e.feasible(st, e.tc.Not(valid), "time.Date normalisation") {
-			panic(unsupported("time.Date with out-of-range fields (normalisation is outside the model); constrain the harness inputs"))
+			t = e.normaliseCivil(st, t)
+		} else {
+			st.assume(valid)
 		}
-		st.assume(valid)
 		var out []exit
 		for _, r := range e.resolveCivil(st, t, pos) {
 			out = append(out, exit{st: r.st, kind: exitReturn, val: r.t})
@@ -643,7 +691,116 @@ func (e *Engine) timeAdd(st *State, t TimeV, d *Term) Value {
 	if d.IsConst() && d.C == 0 {
 		return t
 	}
-	panic(unsupported("Time.Add on a civil time"))
+	return e.civilAdd(st, t, d)
+}
+
+// exactDiv: t / k for a term that is syntactically a sum of multiples of k (durations built from
+// time.Hour, time.Minute, time.Second); ok=false otherwise.
+func (e *Engine) exactDiv(t *Term, k uint64) (*Term, bool) {
+	c := e.tc
+	switch t.Op {
+	case OpConst:
+		v := t.SVal()
+		if v%int64(k) == 0 {
+			return e.bv64(v / int64(k)), true
+		}
+	case OpBVAdd, OpBVSub:
+		a, ok1 := e.exactDiv(t.Args[0], k)
+		b, ok2 := e.exactDiv(t.Args[1], k)
+		if ok1 && ok2 {
+			if t.Op == OpBVAdd {
+				return c.BVAdd(a, b), true
+			}
+			return c.BVSub(a, b), true
+		}
+	case OpBVMul:
+		for i := 0; i < 2; i++ {
+			if t.Args[i].Op == OpConst && t.Args[i].SVal()%int64(k) == 0 {
+				return c.BVMul(t.Args[1-i], e.bv64(t.Args[i].SVal()/int64(k))), true
+			}
+		}
+		for i := 0; i < 2; i++ {
+			if a, ok := e.exactDiv(t.Args[i], k); ok {
+				return c.BVMul(a, t.Args[1-i]), true
+			}
+		}
+	case OpBVNeg:
+		if a, ok := e.exactDiv(t.Args[0], k); ok {
+			return c.BVNeg(a), true
+		}
+	case OpIte:
+		a, ok1 := e.exactDiv(t.Args[1], k)
+		b, ok2 := e.exactDiv(t.Args[2], k)
+		if ok1 && ok2 {
+			return c.Ite(t.Args[0], a, b), true
+		}
+	}
+	return nil, false
+}
+
+// civilAdd: t.Add(d) for a civil time: whole seconds, |d| < 2 days (anything else is UNSUPPORTED).
+func (e *Engine) civilAdd(st *State, t TimeV, d *Term) Value {
+	c := e.tc
+	secs, ok := e.exactDiv(d, 1000000000)
+	if !ok {
+		panic(unsupported("Time.Add with a duration that is not syntactically a whole number of seconds"))
+	}
+	rng := e.inRange(secs, -172800, 172800)
+	if e.feasible(st, c.Not(rng), "Time.Add range") {
+		panic(unsupported("Time.Add by two days or more"))
+	}
+	st.assume(rng)
+	s24 := e.lo24(secs)
+	out := t
+	if e.opt.Zone == 2 && !t.UTC.IsTrue() {
+		if t.Rel == nil || !t.UTC.IsFalse() {
+			panic(unsupported("Time.Add on a local time not built by a modelled constructor (zone view Z2)"))
+		}
+		zv := e.zv
+		o1, o2, tau := e.lo24(zv.O1), e.lo24(zv.O2), e.lo24(zv.Tau)
+		rel := c.BVAdd(t.Rel, s24)
+		bef := c.BVSlt(rel, tau)
+		off := c.Ite(bef, o1, o2)
+		civ := c.BVAdd(rel, off) // seconds after 00:00 of the anchor day on the civil axis
+		lt := func(k int64) *Term { return c.BVSlt(civ, e.z24(k)) }
+		okR := c.And(c.Not(lt(-2*86400)), lt(3*86400))
+		if e.feasible(st, c.Not(okR), "Time.Add day range") {
+			panic(unsupported("Time.Add: result more than two days from the anchor day"))
+		}
+		st.assume(okR)
+		dayOff := c.Ite(lt(-86400), e.z24(-2*86400), c.Ite(lt(0), e.z24(-86400), c.Ite(lt(86400), e.z24(0), c.Ite(lt(172800), e.z24(86400), e.z24(2*86400)))))
+		sod := c.BVSub(civ, dayOff)
+		hw, mw, sw := e.hmsWitness(st, c.True, sod, "ad")
+		py, pm, pd := e.prevDay(st, zv.Y, zv.M, zv.D)
+		p2y, p2m, p2d := e.prevDay(st, py, pm, pd)
+		ny, nm, nd := e.nextDay(st, zv.Y, zv.M, zv.D)
+		n2y, n2m, n2d := e.nextDay(st, ny, nm, nd)
+		pick := func(a2, a1, a0, b1, b2 *Term) *Term {
+			return c.Ite(lt(-86400), a2, c.Ite(lt(0), a1, c.Ite(lt(86400), a0, c.Ite(lt(172800), b1, b2))))
+		}
+		out.Y, out.M, out.D = pick(p2y, py, zv.Y, ny, n2y), pick(p2m, pm, zv.M, nm, n2m), pick(p2d, pd, zv.D, nd, n2d)
+		out.H, out.Mi, out.S = hw, mw, sw
+		out.Off, out.Bef, out.Rel = c.Ite(bef, zv.O1, zv.O2), bef, rel
+		return out
+	}
+	// UTC or a fixed-offset zone: civil arithmetic
+	total := c.BVAdd(e.sod24(t), s24)
+	under := c.BVSlt(total, e.z24(0))
+	under2 := c.BVSlt(total, e.z24(-86400))
+	over := c.BVSle(e.z24(86400), total)
+	over2 := c.BVSle(e.z24(2*86400), total)
+	sod := c.Ite(under2, c.BVAdd(total, e.z24(2*86400)), c.Ite(under, c.BVAdd(total, e.z24(86400)), c.Ite(over2, c.BVSub(total, e.z24(2*86400)), c.Ite(over, c.BVSub(total, e.z24(86400)), total))))
+	hw, mw, sw := e.hmsWitness(st, c.True, sod, "ad")
+	py, pm, pd := e.prevDay(st, t.Y, t.M, t.D)
+	p2y, p2m, p2d := e.prevDay(st, py, pm, pd)
+	ny, nm, nd := e.nextDay(st, t.Y, t.M, t.D)
+	n2y, n2m, n2d := e.nextDay(st, ny, nm, nd)
+	pick := func(a2, a1, a0, b1, b2 *Term) *Term {
+		return c.Ite(under2, a2, c.Ite(under, a1, c.Ite(over2, b2, c.Ite(over, b1, a0))))
+	}
+	out.Y, out.M, out.D = pick(p2y, py, t.Y, ny, n2y), pick(p2m, pm, t.M, nm, n2m), pick(p2d, pd, t.D, nd, n2d)
+	out.H, out.Mi, out.S = hw, mw, sw
+	return out
 }
 
 func (e *Engine) timeSleep(st *State, fr *Frame, d *Term, pos token.Pos) []exit {
@@ -794,6 +951,7 @@ func (e *Engine) resolveCivilZ2(st *State, t TimeV, pos token.Pos) []civilAlt {
 	}
 	out.Off = c.Ite(bef, zv.O1, zv.O2)
 	out.Bef = bef
+	out.Rel = inst
 	return []civilAlt{{st, out}}
 }
 
@@ -814,7 +972,7 @@ func (e *Engine) transitionTime(st *State) TimeV {
 		return c.Ite(lt(-86400), a2, c.Ite(lt(0), a1, c.Ite(lt(86400), a0, c.Ite(lt(172800), b1, b2))))
 	}
 	return TimeV{Y: pick(p2y, py, zv.Y, ny, n2y), M: pick(p2m, pm, zv.M, nm, n2m), D: pick(p2d, pd, zv.D, nd, n2d),
-		H: hw, Mi: mw, S: sw, Ns: e.bv64(0), UTC: c.False, Off: zv.O2, Bef: c.False}
+		H: hw, Mi: mw, S: sw, Ns: e.bv64(0), UTC: c.False, Off: zv.O2, Bef: c.False, Rel: e.lo24(zv.Tau)}
 }
 
 // mergeTimes: ite(g, a, b) on two time values.
